@@ -109,14 +109,19 @@ def run(tier):
         if text:
             ann = '\n'.join(annotate(ln, rng) for ln in strip_headers(text).split('\n'))
             rf.read_back(PROP, 'ja', 'ja', real, add, dict(base, annotated=True), text=ann, reader=read_ccgbank, suffix='.ja')
+    n_dispatch = dispatch_events(rng, add, 60 if tier == 'quick' else 600)
     rejects, stats = validate('traces/RenderTrace.tla', events, 'c20', per_shard=400)
     demo = rf.render_binding_demo(events, 'c20')
+    disp_dev = [metas[i] for (i, clause) in rejects if clause.startswith('DISPATCH.')]
+    if disp_dev:
+        print('NOTE reader selection by file name (outside the listed properties) deviates from Formats!ReaderByExtension: %d names, e.g. %r' % (len(disp_dev), disp_dev[0]))
     viols = []
     for (i, clause) in rejects:
         if clause.startswith(PROP + '.'):
             m = metas[i]
             viols.append(Violation(PROP, clause, (m.get('probe', '') + ' ' + str(m.get('words')))[:300].strip(), m))
     cov = {'states': stats.states, 'transitions': stats.transitions, 'binding_demonstration': demo, 'traces_validated_against_impl': len(events),
+           'reader_selection_by_file_name_against_Formats': {'names': n_dispatch, 'deviations': len(disp_dev), 'first_deviation': disp_dev[:1]},
            'events': {'batches_per_format': n, 'truncated_ptb_lines': n_trunc, 'events': len(events),
                       'read_events': sum(1 for e in events if e['e'] == 'read')},
            'samples': [{k: metas[i][k] for k in metas[i] if k in ('lang', 'fmt', 'words', 'text')} for i in (1, len(events) // 2, len(events))],
@@ -127,6 +132,43 @@ def run(tier):
         'trees rendered in the Japanese format use only rule symbols of the bank (the OTHER label of non-adnominal/adverbial unary steps is excluded)',
         'label recovery of read_ptb is judged under C12',
     ])
+
+
+def dispatch_events(rng, add, n):
+    """read_trees_guess_extension on file names built from awkward stems and (near-)extensions: which of the four readers runs is
+    recorded (the readers are replaced by recorders for the duration) and judged by Formats!ReaderByExtension.  Outside the listed
+    properties: reported, never a violation."""
+    import depccg.tools.reader as R
+    names = ('read_auto', 'read_xml', 'read_jigg_xml', 'read_ptb')
+    orig = {k: getattr(R, k) for k in names}
+    ran = []
+
+    def recorder(kind):
+        def f(filename):
+            ran.append(kind)
+            return iter(())
+        return f
+    exts = ['.auto', '.xml', '.jigg.xml', '.ptb', '.txt', '', '.XML', '.xml.auto', '.ptb.xml', '.jigg.xml.ptb', 'xml', '.jiggxml', '.jigg.xml ',
+            '.xml.jigg', '.jigg', '.ptb.', '.Ptb', '.jigg.XML', '.xml.ptb', '.auto.jigg.xml']
+    stems = ['a', 'dev', 'wsj_00', '', 'x.y', '.', 'a.xml', 'b.jigg', '日本', 'dir.ptb/file', 'a b']
+    count = 0
+    try:
+        for k in names:
+            setattr(R, k, recorder({'read_auto': 'auto', 'read_xml': 'xml', 'read_jigg_xml': 'jigg_xml', 'read_ptb': 'ptb'}[k]))
+        for _ in range(n):
+            name = rng.choice(stems) + rng.choice(exts)
+            del ran[:]
+            try:
+                for _x in R.read_trees_guess_extension(name):
+                    pass
+            except Exception as e:
+                ran.append('raised:' + repr(e)[:60])
+            add({'e': 'dispatch', 'p': 'DISPATCH', 'fmt': '', 'name': [ord(ch) for ch in name], 'ran': list(ran)}, {'file_name': name, 'readers_run': list(ran)})
+            count += 1
+    finally:
+        for k in names:
+            setattr(R, k, orig[k])
+    return count
 
 
 def drop_other(batch):
